@@ -954,6 +954,11 @@ def _rejection(run, rng, vd):
         out = [
             ("coordinate shapes differ", (c[0], c[1][:-1]), d, w),
             ("coordinate arrays reshaped differently", (c[0].reshape(2, -1), c[1]), d, w),
+            # unequal but broadcast-compatible shapes: still not "the same shape"
+            ("northing with a single element against n eastings", (c[0], c[1][:1]), d, w),
+            ("northing (1, n) against easting (n,)", (c[0], c[1].reshape(1, -1)), d, w),
+            ("easting (2, n/2) against northing (2, 1)", (c[0].reshape(2, -1), c[1][:2].reshape(2, 1)), tuple(x.reshape(2, -1) for x in d) if multi else d.reshape(2, -1),
+             None if w is None else (tuple(x.reshape(2, -1) for x in w) if multi else w.reshape(2, -1))),
             ("data shorter than coordinates", c, tuple(x[:-1] for x in d) if multi else d[:-1], None),
             ("data reshaped (same size, other shape)", c, tuple(x.reshape(2, -1) for x in d) if multi else d.reshape(2, -1), None),
             ("weights shorter than data", c, d, tuple(x[:-1] for x in w) if multi else w[:-1]),
@@ -1051,6 +1056,10 @@ def _rejection(run, rng, vd):
     expect_raise("BlockKFold.split", "both shape and spacing", lambda: list(vd.BlockKFold(spacing=sp, shape=(2, 2), n_splits=2).split(X)), lambda: list(vd.BlockKFold(shape=(2, 2), n_splits=2).split(X)))
     expect_raise("BlockKFold.split", "feature matrix with three columns", lambda: list(vd.BlockKFold(shape=(2, 2), n_splits=2).split(np.column_stack([X, east]))), lambda: list(vd.BlockKFold(shape=(2, 2), n_splits=2).split(X)))
     expect_raise("block_split", "coordinate shapes differ", lambda: vd.block_split((east, north[:-1]), spacing=sp), lambda: vd.block_split((east, north), spacing=sp))
+    expect_raise("block_split", "northing with a single element (broadcastable)", lambda: vd.block_split((east, north[:1]), spacing=sp), lambda: vd.block_split((east, north), spacing=sp))
+    expect_raise("block_split", "extra coordinate with a single element (broadcastable)", lambda: vd.block_split((east, north, east[:1]), spacing=sp), lambda: vd.block_split((east, north, east), spacing=sp))
+    expect_raise("rolling_window", "northing (1, n) against easting (n,)", lambda: vd.rolling_window((east, north.reshape(1, -1)), size=span / 2, spacing=span / 4), lambda: vd.rolling_window((east, north), size=span / 2, spacing=span / 4))
+    expect_raise("expanding_window", "northing with a single element (broadcastable)", lambda: vd.expanding_window((east, north[:1]), center=(east[0], north[0]), sizes=[span]), lambda: vd.expanding_window((east, north), center=(east[0], north[0]), sizes=[span]))
     expect_raise("block_split", "neither shape nor spacing", lambda: vd.block_split((east, north)), lambda: vd.block_split((east, north), spacing=sp))
     expect_raise("block_split", "both shape and spacing", lambda: vd.block_split((east, north), spacing=sp, shape=(2, 2)), lambda: vd.block_split((east, north), shape=(2, 2)))
     expect_raise("block_split", "invalid region", lambda: vd.block_split((east, north), spacing=sp, region=[region[1], region[0], region[2], region[3]]), lambda: vd.block_split((east, north), spacing=sp, region=region))
